@@ -50,6 +50,7 @@ def _classes(tokens):
 def _arbitrary(draw, shard, nshards):
     cfg = draw(T.config(shard=shard, nshards=nshards, max_tracks=3))
     cfg["velocity_bins"] = draw(st.integers(1, 6))
+    cfg["ppqn"] = draw(st.sampled_from([None, None, 24, 12, 48, 96, 480, 10, 7]))
     lo = cfg["pitch_range"][0]
     cfg["pitch_range"] = [lo, min(127, lo + draw(st.integers(0, 3)))]
     tok = T.make_tokeniser(cfg)
